@@ -32,7 +32,7 @@ pub struct Case {
 
 fn strat(tier: Tier) -> BoxedStrategy<Case> {
   let max = tier.pick(4096, 65536);
-  (bytes(max), bytes(200), tag_set(tier.pick(16, 256)), any::<u16>(), any::<u16>(), 1u8..4, 2u8..7, any::<bool>(),
+  (prop_oneof![120 => bytes(max), 1 => (65400usize..66100, any::<u64>()).prop_map(|(l, s)| Hx(expand(s, l)))], bytes(200), tag_set(tier.pick(16, 256)), any::<u16>(), any::<u16>(), 1u8..4, 2u8..7, any::<bool>(),
      proptest::collection::vec((0u8..6, any::<u8>(), prop_oneof![3 => 1u8..8, 1 => 8u8..64, 1 => 64u8..=255]), 0..3),
      proptest::collection::vec((0u8..5, prop_oneof![3 => 1u64..5, 1 => any::<u64>()]), 0..4))
     .prop_map(|(input, other_input, mds, md_sel, md_sel2, servers, requests, verifiable, punctures, chosen)| Case {
@@ -217,6 +217,18 @@ fn oracle(c: &Case, st: &mut Stats) -> Result<(), String> {
     let f3 = crate::starx::ppoprf_exchange(server, md, &other_input, false)?;
     if f3 == fin {
       return Err("same output for two different inputs".into());
+    }
+    // ... also between inputs that differ in their last byte only
+    if !c.input.is_empty() {
+      let mut near = c.input.0.clone();
+      let n = near.len();
+      near[n - 1] ^= 1;
+      if crate::starx::ppoprf_exchange(server, md, &near, false)? == fin {
+        return Err(format!("same output for two inputs of {n} bytes that differ in their last byte"));
+      }
+      if n >= 65536 {
+        st.class("input>=64KiB");
+      }
     }
     // the helper path agrees with the step-by-step path
     let f4 = crate::starx::ppoprf_exchange(server, md, &c.input, c.verifiable)?;
